@@ -212,7 +212,7 @@ def realpipe(task, repo):
 
     sched = task.get("sched") or props.get(task["gen"]["prop"]).gen_sched(task["gen"])
     sched = dict(sched, want_out=True, faults=[], buggify=[], chunks=None, order=None, pool={},
-                 strict_edits=False)
+                 strict_edits=False, release_version=None)
     sched["ops"] = [{k: v for k, v in op.items() if k != "cut"} for op in sched["ops"] if op["k"] == "msg"]
 
     def norm(fr):
